@@ -472,40 +472,66 @@ def r01_1_2(ctx, rep):
 def r01_4(ctx, rep):
     # ---- truncate ----
     key = ctx.body_key(WRITER_RX % "truncate")
+    SP = (("arg", 1), ("none",), ("state_machine", "log_state"))
     g, P, rows = extract_rows(ctx, key, ("arg", 1), ("none",), ("state_machine", "log_state"), (0, 99, ()))
     encs = [n for n, sub in g.callee_inst.items() if re.search(r"WALRecord<T> as codeq::Encode>::encode$", sub.key) and n in P.live
             and len(event_args(g, n)) > 1 and has_field(strip_ids(event_args(g, n)[1]), "pending_data")]
-    recs = set()
+    # (a) what the journalled record may carry: TruncateAfter(x), x from exactly two sources (looked through helpers, locals, combinators)
+    vals = set()
+    shape_ok = bool(encs)
     for n in encs:
-        r_ = strip_ids(event_args(g, n)[0])
-        recs.add(r_)
-    ok = False
-    detail = ""
-    if len(recs) == 1:
-        rec = list(recs)[0]
-        if rec[0] == "agg" and rec[2] == "TruncateAfter" and rec[3][0][0] == "var":
-            var = rec[3][0]
-            vi = g.insts[var[1]]
-            vals = set()
-            for d in g.prog.defs(vi.key).get(var[2], []):
-                if d[0] == "s":
-                    vals.add(render(strip_ids(g.prov_rvalue(vi, vi.body["blocks"][d[1]]["stmts"][d[2]]["rv"], None)), ("arg", 1), ("none",), ("state_machine", "log_state")))
-                else:
-                    vals.add(render(strip_ids(g.prov_call(vi, d[1])), ("arg", 1), ("none",), ("state_machine", "log_state")))
-            detail = " | ".join(sorted(vals))
-            want_a = "state.purged"
-            ok = want_a in vals and any(re.match(r"Some\(.*get\(arg1\.state_machine\.log, checked_sub\(arg2, 1\)\).*log_id\)$|Some\(.*log_id.*\)$", v) and "checked_sub(arg2, 1)" in v for v in vals) \
-                and len(vals) == 2
-    # the selecting predicate
-    sel = any(any(k.startswith("eq(arg2, next_log_index(state.purged))") or k.startswith("eq(next_log_index(state.purged), arg2)") for (k, v) in row[0])
-              for rs in rows.values() for row in rs)
-    if ok and sel:
+        raw = event_args(g, n)[0]
+        if not (isinstance(raw, tuple) and raw and raw[0] == "agg" and raw[2] == "TruncateAfter" and len(raw[3]) == 1):
+            shape_ok = False
+            continue
+        for x in value_sources(g, raw[3][0]):
+            vals.add(render(strip_ids(x), *SP))
+    detail = " | ".join(sorted(vals))
+    LOOKUP = r"get\(arg1\.state_machine\.log, checked_sub\(arg2, 1\)\)"
+    src_ok = shape_ok and len(vals) == 2 and "state.purged" in vals and \
+        any(re.match(r"Some\(.*%s.*log_id\)$" % LOOKUP, v) for v in vals)
+    # (b) which source on which path: the record is journalled only after `index == next_log_index(purged)` was found true, or found false
+    #     and the index map had an entry at index-1; the refusal LogIndexNotFound only with the selector false
+    gets = [n for n in P.calls(r"BTreeMap::<K, V, A>::get$")
+            if re.search(LOOKUP, render(strip_ids(("call", "get", tuple(event_args(g, n)))), *SP))]
+    gset = set(gets)
+    eo = [call_outcome(P, n) for n in encs]
+    want = ("eq(arg2, next_log_index(state.purged))", "eq(next_log_index(state.purged), arg2)")
+
+    def step_t(ms, pi, qi, learn):
+        sel, found, j = ms
+        for f in eo:
+            if f(pi, qi, learn) in ("ok", "err"):
+                j = True
+        for o, v in norm_learn(learn):
+            cn = origin_call(o)
+            if cn in gset and v in ("Some", "None"):
+                found = (v == "Some")
+            e = origin_stmt_expr(g, o)
+            if e is not None and e[0] == "binop" and v in ("true", "false"):
+                a = render(strip_ids(e[2]), *SP)
+                b = render(strip_ids(e[3]), *SP)
+                k, truth = canon_pred(e[1].lower(), a, b, v == "true")
+                if k in want:
+                    sel = truth
+        return (sel, found, j)
+    seen_t = run_monitor(P, (None, None, False), step_t)
+    bad_t = None
+    for n in encs:
+        for (pi, ms) in seen_t:
+            if P.gnode(pi) == n and not (ms[0] is True or (ms[0] is False and ms[1] is True)):
+                bad_t = ("journal", ms)
+    for (pi, ms0, ms) in finals(P, seen_t, step_t):
+        if P.gnode(pi) in g.exits and exit_is_err(P, pi) and not ms[2] and ms[0] is not False:
+            bad_t = ("refusal-with-selector-%s" % ms[0], ms)
+    sel = any(any(k in want for (k, v) in row[0]) for rs in rows.values() for row in rs)
+    if src_ok and sel and bad_t is None:
         rep.ok("R01.4", "truncate(index)", "index == next_log_index(purged) -> TruncateAfter(purged); else TruncateAfter(Some(log[index-1].log_id)) (%s)" % detail[:120],
                where=g.where(g.entry))
     else:
         rep.violation("R01.4", "truncate|record-mapping", "truncate(index)",
                       "truncate does not journal TruncateAfter(purged) for index == next_log_index(purged) and TruncateAfter(Some(log id at index-1)) "
-                      "otherwise: payload sources {%s}, selector found=%s" % (detail[:200], sel), where=g.where(g.entry))
+                      "otherwise: payload sources {%s}, selector found=%s, path check: %s" % (detail[:200], sel, bad_t), where=g.where(g.entry))
     # ---- purge ----
     key = ctx.body_key(WRITER_RX % "purge")
     g, P, rows = extract_rows(ctx, key, ("arg", 1), ("none",), ("state_machine", "log_state"), (0, 99, ()))
